@@ -48,9 +48,16 @@ def make_cert(kind="ec", cn="localhost", serial=None, tag="", expired=False):
 class CertFiles:
     """Writes a certificate/key pair to a private temp dir; remove() deletes it."""
 
-    def __init__(self, kind="ec", cn="localhost", serial=None, tag="", extra_chain=()):
-        """extra_chain: CertFiles whose certificates are appended to the PEM file (the peer sends them after its own)."""
+    def __init__(self, kind="ec", cn="localhost", serial=None, tag="", extra_chain=(), version_four=False):
+        """extra_chain: CertFiles whose certificates are appended to the PEM file (the peer sends them after its own).
+        version_four: the X.509 version field says 3 ("v4") - OpenSSL completes a handshake with it (nobody verifies the
+        self-signature, proof of possession needs only the key), the `cryptography` package refuses to load it."""
         self.cert_pem, self.key_pem, self.der = make_cert(kind, cn, serial, tag)
+        if version_four:
+            import ssl as _ssl
+            at = self.der.index(bytes.fromhex("a003020102"))
+            self.der = self.der[:at + 4] + b"\x03" + self.der[at + 5:]
+            self.cert_pem = _ssl.DER_cert_to_PEM_cert(self.der).encode()
         for other in extra_chain:
             self.cert_pem = self.cert_pem + other.cert_pem
         self.dir = tempfile.mkdtemp(prefix="vf-cert-")
